@@ -68,9 +68,16 @@ func runGroundPkg(w *World, o *Options, pkg string, gs []*GroundOb) []*Obligatio
 	src := filepath.Join(work, "zz_verif_ground_test.go")
 	os.WriteFile(src, []byte(b.String()), 0o644)
 	ov := filepath.Join(work, "overlay.json")
-	ovj, _ := json.Marshal(map[string]map[string]string{"Replace": {filepath.Join(pkgDir(w, pkg), "zz_verif_ground_test.go"): src}})
+	repl := map[string]string{filepath.Join(pkgDir(w, pkg), "zz_verif_ground_test.go"): src}
+	// harness helpers used by ground / bounded expressions: /verif/harness/<pkg>/*.go
+	hs, _ := filepath.Glob(filepath.Join(o.verif, "harness", pkg, "*.go"))
+	sort.Strings(hs)
+	for _, h := range hs {
+		repl[filepath.Join(pkgDir(w, pkg), "zz_verif_h_"+strings.TrimSuffix(filepath.Base(h), ".go")+"_test.go")] = h
+	}
+	ovj, _ := json.Marshal(map[string]map[string]string{"Replace": repl})
 	os.WriteFile(ov, ovj, 0o644)
-	cmd := exec.Command("go", "test", "-v", "-overlay", ov, "-vet=off", "-count=1", "-timeout", "120s", "-run", "^TestVerifGround$", ".")
+	cmd := exec.Command("go", "test", "-v", "-overlay", ov, "-vet=off", "-count=1", "-timeout", "300s", "-run", "^TestVerifGround$", ".")
 	cmd.Dir = pkgDir(w, pkg)
 	cmd.Env = append(os.Environ(), goEnv...)
 	outb, _ := cmd.CombinedOutput()
@@ -80,6 +87,11 @@ func runGroundPkg(w *World, o *Options, pkg string, gs []*GroundOb) []*Obligatio
 	for i, g := range gs {
 		ob := &Obligation{Name: "ground:" + g.Name, Kind: "ground", Props: g.Props, Fn: pkg, Text: g.Args[0], Backend: "go test (real code)", Millis: ms / int64(len(gs)),
 			Pos: fmt.Sprintf("%s:%d", relPath(w.repo, g.File), g.Line)}
+		if g.Bound != "" {
+			ob.Name, ob.Kind, ob.Bounded = "bounded:"+g.Name, "bounded", true
+			ob.Backend = "go test (real code), bounded: " + g.Bound
+			ob.Text = g.Args[0] + "   [bound: " + g.Bound + "]"
+		}
 		switch {
 		case strings.Contains(text, fmt.Sprintf("GROUND %d OK\n", i)):
 			ob.Status = "discharged"
